@@ -8,6 +8,24 @@ CHECKS = {
  "C01": dict(cat="proof", tech="abstract interpretation of THIR: panic-freedom obligations under type invariants, loop ranking, iterator typestate",
    text="Every partial operation (index, slice range, arithmetic overflow, unwrap/expect, explicit panic, std preconditions) reachable from the 16 parsing entry points on an arbitrary byte string, and from every public method/conversion/iterator on every value they can return, is an obligation discharged for all inputs under the facts of the constructing path (type invariant); every loop gets a ranking argument; every stateful iterator an inductive state invariant (Houdini) and a lexicographic progress measure bounded by the input length; Compound::next is justified by recurrence agreement with the validation loop of Compound::parse.",
    note=TB + "allocation failure/stack exhaustion out of scope; documented-panic exemption only for methods with a '# Panic' doc section called directly.", ref="§4 C01"),
+ "C08": dict(cat="proof", tech="path-condition entailment of RFC framing facts on every accepting path; header accessor summaries vs RFC header table",
+   text="On every Ok outcome of every typed parser, of the generic parser per dispatched variant, and of the unknown parser, the path condition entails (for all inputs) minimum size, version 2, the RFC packet type, len = 4*(length field+1), padding bit => non-zero final byte, and count-implied body size, with all constants taken from an independent RFC table; version/type_/count/subtype/length/padding accessor summaries are entailed equal to those header values.",
+   note=TB + "RFC constants in rtcpverif/spec.py.", ref="§4 C08"),
+ "C09": dict(cat="translation_validation", tech="accessor summaries (abstract interpretation) compared row by row with an independent RFC layout table; slice provenance; refutation of reject paths under RFC well-formedness",
+   text="Accessor summaries of SR, RR, report block, APP, BYE, feedback header and unknown packets are compared with the RFC layout table: scalars must be the big-endian word at the table's offset and width, byte ranges must be views of the caller's buffer with the table's bounds (padding excluded), element iterators must have count = count field and element k at the table's stride; every rejecting path of each parser is refuted under RFC well-formedness (framing, count-implied size, legal zero padding).",
+   note=TB + "the RFC layout table (spec.py). For paddings that are not a multiple of 4 the RFC does not define the layout; the table accepts either reading of a single leftover byte in BYE.", ref="§4 C09"),
+ "C11": dict(cat="proof", tech="loop summarisation into a validated recurrence + iterator typestate (inductive invariant, transition table) with the generic parser uninterpreted",
+   text="Compound::parse's validation loop is summarised as the recurrence o0=0, o'=o+4*(BE16(o+2)+1) with the facts checked at every chain point; accept <=> non-empty and the chain ends exactly at len (both directions, from the outcome path conditions). Compound::next is a transition system over (offset, is_over) under an inferred inductive invariant: finished => None and unchanged; otherwise it yields exactly Packet::parse(tile), advances by the tile, finishes after the first error or when offset reaches len; progress bounds the number of items by the number of tiles.",
+   note=TB, ref="§4 C11"),
+ "C12": dict(cat="proof", tech="abstract interpretation of dispatch and conversions with typed parsers as uninterpreted functions; impl-table exhaustiveness",
+   text="Packet::parse and all 7x4 TryFrom conversions (+ try_as, From) are interpreted with the typed parsers left uninterpreted, so every outcome shows which parser was applied to which bytes: each variant is selected exactly by its RFC packet type and holds the unchanged result (value or error) of its own type's parser on the unchanged input, unknown types go to Unknown::parse; conversions return the stored value, re-parse an unknown packet's exact bytes with the target parser, or give PacketTypeMismatch{actual: the packet's type byte, requested: the target's RFC type}.",
+   note=TB + "equality of the typed parsers' own outcomes is by identity of the (uninterpreted) call and its argument view.", ref="§4 C12"),
+ "C13": dict(cat="proof", tech="relational comparison of accessor summaries (padded vs unpadded packet) + footprint/non-interference analysis + refutation of reject paths",
+   text="With C = len - padding: on padded accepting paths every byte a content accessor's result or decision depends on lies below C and every returned view ends at or below C (under 'the unpadded packet was accepted'); for SR, RR, APP, BYE and feedback (incl. the FCI view handed to FCI parsers) the accessor summaries of the padded packet (len := C+p) and of the unpadded packet (len := C, P bit cleared) are entailed equal pairwise under their joint path condition; no rejecting path is consistent with adding legal zero padding to an accepted packet. SDES (eager tokeniser with loops): footprint of every chunk/item view and the chunk walk ending exactly at C.",
+   note=TB + "SDES: agreement with the unpadded tokenisation is by footprint + walk bound, not by pairwise comparison of loop outcomes.", ref="§4 C13"),
+ "C18": dict(cat="proof", tech="entailment of error-payload truthfulness on every rejecting path of every parser and conversion",
+   text="Every Err outcome of every parser (typed, generic, unknown, compound, report block, FCI, SDES sub-parsers) and of every conversion/FCI extraction is checked against its path condition: UnsupportedVersion carries the input's version and it is not 2; PacketTypeMismatch carries the input's type byte and the parser's RFC type, which differ; Truncated has expected > actual, TooLarge expected < actual; inputs shorter than the minimum give Truncated{MIN, len}; version-2 inputs of the right type with a wrong total length give Truncated/TooLarge{4*(length field+1), len}.",
+   note=TB, ref="§4 C18"),
 }
 PENDING = "check under construction (see DESIGN.md); not yet registered"
 def main():
